@@ -36,8 +36,10 @@ pub fn gen(seed: u64) -> MCase {
     let gate = rng.chance(1, 2);
     let (stored_name, stored_version, msg_path) = if gate { (rng.below(6) as u8, rng.below(11) as u8, if rng.chance(2, 3) { path } else { rng.below(3) as u8 }) } else { (0, path, path) };
     // mostly a handful of scattered sequences; sometimes a long consecutive stretch (page boundaries)
-    let long = rng.chance(1, 5);
-    let np = if long { rng.range(9, 26) } else { rng.below(7) };
+    // ... and now and then more open transfers than any page size or batch limit in the code (50)
+    let huge = rng.chance(1, 12);
+    let long = huge || rng.chance(1, 5);
+    let np = if huge { rng.range(51, 75) } else if long { rng.range(9, 26) } else { rng.below(7) };
     let base = rng.range(1, 40);
     let mut seqs: Vec<u64> = vec![];
     let packets = (0..np)
@@ -47,7 +49,9 @@ pub fn gen(seed: u64) -> MCase {
                 s += 1;
             }
             seqs.push(s);
-            (s, rng.pick(&[1u128, 1000, 999_999_999_999, 10u128.pow(27), u128::MAX]).to_string(), rng.below(4) as u8)
+            // the very large stores stay inside the stated amount domain so that the upgraded contract can be exercised on them
+            let a = if huge { *rng.pick(&[1u128, 1000, 999_999_999_999, 10u128.pow(27)]) } else { *rng.pick(&[1u128, 1000, 999_999_999_999, 10u128.pow(27), u128::MAX]) };
+            (s, a.to_string(), rng.below(4) as u8)
         })
         .collect();
     let replies = (0..if long && rng.chance(1, 2) { rng.range(9, 14) } else { rng.below(3) }).map(|i| (1_700_000_000_000_000_000 + i, rng.pick(&[1u128, 5000, u128::MAX]).to_string())).collect();
@@ -72,14 +76,19 @@ pub fn semver_lt(a: &str, b: (u64, u64, u64)) -> Option<bool> {
     Some(t < b || (t == b && pre.is_some()))
 }
 
+/// the mistyped argument is the protocol-chain prefix (and only that one)
+fn proto_wrong(c: &MCase) -> bool {
+    c.wrong_prefix_arg && c.fill % 5 == 4
+}
+
 fn msg_for(path: u8, c: &MCase, np: &str, pp: &str) -> Value {
     match path % 3 {
         0 => json!({"v0_4_18_to_v0_4_20": {"send_fees_to_treasury": c.fill % 2 == 0}}),
         1 => json!({"v0_4_20_to_v1_0_0": {
-            "native_account_address_prefix": if c.wrong_prefix_arg && c.fill % 3 != 1 { "cosmos" } else { np },
-            "native_validator_address_prefix": if c.wrong_prefix_arg && c.fill % 3 == 1 { np.to_string() } else { format!("{}valoper", np) },
+            "native_account_address_prefix": if c.wrong_prefix_arg && !proto_wrong(c) && c.fill % 3 != 1 { "cosmos" } else { np },
+            "native_validator_address_prefix": if c.wrong_prefix_arg && !proto_wrong(c) && c.fill % 3 == 1 { np.to_string() } else { format!("{}valoper", np) },
             "native_token_denom": "utia",
-            "protocol_account_address_prefix": pp,
+            "protocol_account_address_prefix": if proto_wrong(c) { "osmosis" } else { pp },
         }}),
         _ => json!({"v1_0_0_to_v1_1_0": {}}),
     }
@@ -132,7 +141,7 @@ pub fn eval(c: &MCase) -> Eval {
         "liquid_stake_token_denom": format!("factory/{}/milkTIA", w.setup.staking_addr),
         "treasury_address": treasury,
         "monitors": monitors_opt,
-        "validators": if c.wrong_prefix_arg && c.fill % 3 == 2 { json!([addr20(vp, "v0"), addr20("cosmosvaloper", "foreign"), addr20(vp, "v2")]) } else { json!([addr20(vp, "v0"), addr20(vp, "v1"), addr20(vp, "v2")]) },
+        "validators": if c.wrong_prefix_arg && !proto_wrong(c) && c.fill % 3 == 2 { json!([addr20(vp, "v0"), addr20("cosmosvaloper", "foreign"), addr20(vp, "v2")]) } else { json!([addr20(vp, "v0"), addr20(vp, "v1"), addr20(vp, "v2")]) },
         "batch_period": rng.range(1, 1_000_000),
         "unbonding_period": rng.range(1, 10_000_000),
         "protocol_fee_config": {"dao_treasury_fee": if rng.chance(1, 5) { "0".to_string() } else { rng.below(100_001).to_string() }},
@@ -183,7 +192,11 @@ pub fn eval(c: &MCase) -> Eval {
     let gate_ok = name == "staking" && ver == source && semver_lt(ver, code_t) == Some(true);
     // the store has the layout of `path`; a message of another path may fail to decode it even when the gate passes
     let layout_ok = c.msg_path % 3 == path;
-    let args_ok = !(c.msg_path % 3 == 1 && c.wrong_prefix_arg);
+    // a mistyped protocol prefix only matters if the old store holds a protocol-chain address to check against it
+    let proto_addr_present = !oracle_opt.is_null() || monitors_opt.as_array().map(|a| !a.is_empty()).unwrap_or(false) || send_fees;
+    let args_ok = !(c.msg_path % 3 == 1 && c.wrong_prefix_arg && (!proto_wrong(c) || proto_addr_present));
+    // the prefix the new configuration has to carry is the one supplied
+    let pp_arg = if proto_wrong(c) { "osmosis" } else { pp };
 
     if let Some(k) = c.abort_at {
         w.faults.abort_at_access = Some(k as u64);
@@ -198,7 +211,7 @@ pub fn eval(c: &MCase) -> Eval {
         // retry without the fault
         let r2 = w.tx_migrate(Which::Staking, &msg.to_string());
         ev.stats.txs += 1;
-        check_result(c, &r2, &before, &w, gate_ok, layout_ok, args_ok, name, ver, &msg, &mut viol, &mut ev, send_fees, &ibc, &staker, np, pp);
+        check_result(c, &r2, &before, &w, gate_ok, layout_ok, args_ok, name, ver, &msg, &mut viol, &mut ev, send_fees, &ibc, &staker, np, pp_arg);
         if r2.ok {
             ev.stats.probe("migration_retried_after_abort");
         }
@@ -206,7 +219,7 @@ pub fn eval(c: &MCase) -> Eval {
             queue_lists_all(c, &mut w, &mut viol);
         }
     } else {
-        check_result(c, &r, &before, &w, gate_ok, layout_ok, args_ok, name, ver, &msg, &mut viol, &mut ev, send_fees, &ibc, &staker, np, pp);
+        check_result(c, &r, &before, &w, gate_ok, layout_ok, args_ok, name, ver, &msg, &mut viol, &mut ev, send_fees, &ibc, &staker, np, pp_arg);
         if r.ok && gate_ok && layout_ok && c.msg_path % 3 == 2 {
             queue_lists_all(c, &mut w, &mut viol);
         }
@@ -240,7 +253,7 @@ fn queue_lists_all(c: &MCase, w2: &mut World, viol: &mut Vec<Violation>) {
     let mut want: Vec<u64> = c.packets.iter().map(|p| p.0).collect();
     want.sort();
     want.dedup();
-    for limit in [1u32, 3, 50] {
+    'limits: for limit in [1u32, 3, 50] {
         let mut got: Vec<u64> = vec![];
         let mut cursor: Option<u64> = None;
         for _ in 0..(want.len() + 2) {
@@ -249,7 +262,7 @@ fn queue_lists_all(c: &MCase, w2: &mut World, viol: &mut Vec<Violation>) {
                 Some(v) => v["ibc_queue"].as_array().map(|a| a.iter().map(|p| p["sequence"].as_u64().unwrap_or(u64::MAX)).collect()).unwrap_or_default(),
                 None => {
                     viol.push(Violation { stop: true, prop: "C17", clause: "queue_after_upgrade", step: 1, msg: "IbcQueue query failed after the migration".into() });
-                    return;
+                    break 'limits;
                 }
             };
             if page.is_empty() {
@@ -260,8 +273,19 @@ fn queue_lists_all(c: &MCase, w2: &mut World, viol: &mut Vec<Violation>) {
         }
         if got != want {
             viol.push(Violation { stop: true, prop: "C17", clause: "queue_after_upgrade", step: 1, msg: format!("after the migration, paging IbcQueue with limit {} lists {:?} but the stored transfers are {:?}", limit, got, want) });
-            return;
+            break 'limits;
         }
+    }
+    // the upgraded contract keeps working on the migrated records: a permissionless recovery either re-sends
+    // something or reports that nothing is refundable, it never crashes (a panic is recorded for C16)
+    // (only inside the stated domain: amounts up to 10^27)
+    if c.packets.iter().any(|p| p.1.parse::<u128>().map(|a| a > 10u128.pow(27)).unwrap_or(true)) {
+        return;
+    }
+    let user = addr20(&w2.setup.proto_prefix.clone(), "anybody");
+    let s_addr = w2.setup.staking_addr.clone();
+    for paginated in [Value::Null, json!(true)] {
+        let _ = w2.tx_execute(&s_addr, &user, &[], &json!({"recover_pending_ibc_transfers": {"paginated": paginated, "selected_packets": Value::Null, "receiver": Value::Null}}).to_string());
     }
 }
 
